@@ -28,7 +28,7 @@ ASSUMPTIONS = [
     'classes live in an importable synthetic module so that pickle can find them',
     'watchers whose callback is a method of an unrelated third object are not generated',
 ]
-REQUIRED = {'copies': 1200, 'divergence_ops': 5000, 'copies_with_subobject': 400, 'pickle_copies': 800, 'slot_only_subobject_dependency_cases': 100}
+REQUIRED = {'copies': 1200, 'divergence_ops': 5000, 'copies_with_subobject': 400, 'pickle_copies': 800, 'slot_only_subobject_dependency_cases': 100, 'copies_inside_trigger_callback': 60}
 
 MOD = 'pvgen_c17'
 _st = {}
@@ -76,6 +76,10 @@ def setup(P):
         @param.depends('a', 's', watch=True)
         def m_own(self):
             self.__dict__.setdefault('calls', []).append('m_own')
+            hook = _st.get('hook')
+            if hook is not None and hook[0] is self:
+                _st['hook'] = None
+                hook[1]()
 
         @param.depends('sub.x:bounds', watch=True)
         def m_subslot(self):
@@ -242,25 +246,46 @@ def run_case(idx, rng, P, rep):
     via_sub = [False]
     in_batch = rng.random() < 0.15
     desc['copied_inside_open_batch'] = in_batch
+    in_trigger = not in_batch and rng.random() < 0.12
+    desc['copied_inside_trigger_callback'] = in_trigger
     try:
+        if in_trigger:
+            # the copy is taken by a dependent method of the original while it runs because of trigger(): the copy is a new
+            # object on which nothing is being triggered
+            box = []
+
+            def take():
+                box.append(snapshot(o))
+                box.append(copy.deepcopy(o) if mech == 'deepcopy' else pickle.loads(pickle.dumps(o, protocol=int(mech[-1]))))
+            _st['hook'] = (o, take)
+            try:
+                o.param.trigger(rng.choice(['a', 's']))
+            finally:
+                _st['hook'] = None
+            before, c = box
+            o.calls[:] = c.calls        # (the rest of the trigger went on logging calls on the original)
+            rep.count('copies_inside_trigger_callback')
+            if mech != 'deepcopy':
+                rep.count('pickle_copies')
         # (a copy may be taken while a batch is open on the original: the copy is a new object outside any batch)
         with (param.parameterized.batch_call_watchers(o) if in_batch else contextlib.nullcontext()):
-            if in_batch:
-                rep.count('copies_inside_open_batch')
-            # the copy may also be started from the sub-object of a cyclic pair (sub.owner is o): the parent copy is then
-            # reached through the copied sub-object
-            start = o
-            if isinstance(o.sub, param.Parameterized) and o.sub.owner is o and rng.random() < 0.5:
-                start = o.sub
-                via_sub[0] = True
-                rep.count('copies_started_from_back_referencing_subobject')
-            if mech == 'deepcopy':
-                c = copy.deepcopy(start)
-            else:
-                c = pickle.loads(pickle.dumps(start, protocol=int(mech[-1])))
-                rep.count('pickle_copies')
-            if start is not o:
-                c = c.owner
+          if not in_trigger:
+              if in_batch:
+                  rep.count('copies_inside_open_batch')
+              # the copy may also be started from the sub-object of a cyclic pair (sub.owner is o): the parent copy is then
+              # reached through the copied sub-object
+              start = o
+              if isinstance(o.sub, param.Parameterized) and o.sub.owner is o and rng.random() < 0.5:
+                  start = o.sub
+                  via_sub[0] = True
+                  rep.count('copies_started_from_back_referencing_subobject')
+              if mech == 'deepcopy':
+                  c = copy.deepcopy(start)
+              else:
+                  c = pickle.loads(pickle.dumps(start, protocol=int(mech[-1])))
+                  rep.count('pickle_copies')
+              if start is not o:
+                  c = c.owner
     except Exception as e:   # noqa: BLE001
         sub = '/with-subobject-dependency' if flags['sub'] else ''
         if via_sub[0]:
@@ -297,13 +322,21 @@ def run_case(idx, rng, P, rep):
         s_obj = snapshot(obj)
         obj.__dict__.setdefault('calls', [])
         n_calls = len(obj.calls)
-        kind = rng.choice(['a', 's', 'sub.x', 'sub.y', 'sub.b.y', 'other.x', 'replace-sub', 'mutate', 'meta', 'a', 'sub.x', 'sub.x:bounds', 'update-a-s'])
+        kind = rng.choice(['a', 's', 'sub.x', 'sub.y', 'sub.b.y', 'other.x', 'replace-sub', 'mutate', 'meta', 'a', 'sub.x', 'sub.x:bounds', 'update-a-s',
+                           'a-same'])
         expect = []
         replaced = False
         multi = ['on_as'] if 'watch-own-method-multi' in hist else []
         if kind == 'a':
             obj.a = tokv()
             expect = ['m_own'] + (['on_a'] if 'watch-own-method' in hist else []) + multi
+        elif kind == 'a-same':
+            # re-assigning the value a parameter holds changes nothing: no dependent method, no changes-only watcher
+            if rng.random() < 0.5:
+                obj.a = obj.a
+            else:
+                obj.param.update(a=obj.a, s=obj.s)
+            expect = []
         elif kind == 's':
             obj.s = 'd%d' % int(tokv())
             expect = ['m_own'] + multi
